@@ -182,6 +182,8 @@ def apply(spec, tg, n):
         # one more nesting level around F's successor chain
         spec["tasks"].append({"id": "X", "children": [{"id": "X1", "children": [{"id": "X11", "children": [
             {"id": "x", "effort": 180, "alloc": ["r2"], "deps": [{"ref": "F"}]}]}]}]})
+        # one leaf closes three container levels at once; a high-priority task waits for the OUTERMOST of them
+        spec["tasks"].insert(0, {"id": "afterX", "effort": 120, "alloc": ["r2"], "prio": 900, "deps": [{"ref": "X"}]})
     else:
         raise ValueError(tg)
 
